@@ -50,6 +50,7 @@ Ops ==
   \cup (IF On("SetProps") THEN {[op |-> "SetProps", via |-> v] : v \in Pick({"props", "title"})} ELSE {})
   \cup (IF On("Placeholder") THEN {[op |-> "Placeholder", where |-> w] : w \in WhereC \cap {"body", "cell"}} ELSE {})
   \cup (IF On("Render") THEN {[op |-> "Render", via |-> v] : v \in Pick({"doc", "legacy", "renderer"})} ELSE {})
+  \cup {[op |-> o, all |-> a] : o \in RemoveOps \cap OpNames, a \in BOOLEAN}
   \cup (IF On("Reopen") THEN {[op |-> "Reopen", via |-> v] : v \in Pick({"mem", "file"})} ELSE {})
   \cup {[op |-> o] : o \in OpNames \cap {"AddEndnote", "SetFootnoteConfig", "AddStyle", "AddParagraph", "AddTable", "Save", "ToBytes"}}
 
